@@ -186,7 +186,15 @@ func c10Run(twin bool) {
 		verif.Assert("twin", !back.delivered)
 		return
 	}
-	verif.Assert("answer-accepted-by-every-router-on-the-way-back", !back.rejected && !back.loop)
+	// one clause per kind of cause and per direction in which the request was using the segment of
+	// the answering AS (so that a finding names the scenario it concerns)
+	causeName := [...]string{"external-interface-down", "internal-connectivity-down", "invalid-mac", "path-expired",
+		"traceroute-ingress", "traceroute-egress"}[cause]
+	dirName := "against-construction-direction"
+	if w.segs[w.hops[w.firstHopOfNode(at)].seg].sh.cons {
+		dirName = "in-construction-direction"
+	}
+	verif.Assert(causeName+"-answer-accepted-by-every-router-on-the-way-back-request-segment-"+dirName, !back.rejected && !back.loop)
 	wantPort := src.port
 	if cause >= vwCauseTraceIn {
 		wantPort = ident
@@ -243,7 +251,7 @@ func c10Run(twin bool) {
 		okIA, okIf := be64w(b, hl+8) == uint64(n.ia), be64w(b, hl+16) == uint64(flagged)
 		verif.Assert("traceroute-reply-reports-local-as-and-flagged-interface", okIA && okIf)
 	}
-	if len(back.cross) >= 4 {
+	if fwd.rejRouter.node >= 2 {
 		verif.Cover("answer-crosses-transit-as")
 	}
 	if replyLink.scope == Sibling {
